@@ -74,6 +74,8 @@ namespace via
             size_t pad_chars(std::count(input.begin(), input.end(), PAD_CHARACTER));
             std::replace(input.begin(), input.end(), PAD_CHARACTER, 'A');
             std::string output(ItBinaryT(input.begin()), ItBinaryT(input.end()));
+            if (pad_chars > output.size())
+              return std::string("");
             output.erase(output.end() - pad_chars, output.end());
             return output;
           }
